@@ -84,7 +84,7 @@ CLAIMED = {
    "Trusted: anchors by type (wazevoapi.ExitCode, wasmruntime vars, ModuleInstance.Closed), callee name prefix afterGoFunctionCallEntrypoint as the only re-entry.",
    "static: exhaustiveness over typed constants, must-precede on statement lists, SSA bit-half abstract evaluation, sibling set agreement"),
  "C09": ("other",
-   "Static decision of structural necessary conditions for every close/drop/collect history: code is unmapped only inside registered finalizers which are never called directly; every mapping site reaches the owner's finalizer registration on all normal paths (interprocedural mapper summaries with bool/nil result correlation); finalizer-carrying owners are never copied by value; keep-alive links (table involvement list, GlobalInstance.Me, memory owner, engine parents, function-record lists) are never written on paths reachable from a Close/Delete entry point (VTA call graph) and list-typed ones only grow; every address converted to an integer that outlives the statement has a collector-visible keeper; allocator buffers are freed by the owner only. Function references flowing dynamically between instances as guest values (the hazard named in the property text) are not decided.",
+   "Static decision of structural necessary conditions for every close/drop/collect history: code is unmapped only inside registered finalizers which are never called directly; every mapping site reaches the owner's finalizer registration on all normal paths (interprocedural mapper summaries with bool/nil result correlation); finalizer-carrying owners are never copied by value; keep-alive links (table involvement list, GlobalInstance.Me, memory owner, engine parents, function-record lists) are never written on paths reachable from a Close/Delete entry point (VTA call graph) and list-typed ones only grow; every address converted to an integer that outlives the statement has a collector-visible keeper; allocator buffers are freed by the owner only; every arm storing a guest-provided reference into a table must register a keep-alive (none does: the hazard named in the property text, demonstrated on the real code and recorded as 8 known findings, one per arm). Run-time value flows and references held in globals are not decided.",
    "DESIGN.md §4 C09",
    "Trusted: table of keep-alive links (17 fields, each with a reason), the list of Close/Delete entry-point names, three named exemptions for keepers outside the function, VTA call graph soundness for wazero's own functions.",
    "static: who-may-call, must-pass-through on SSA CFG with summaries, no-copy typing rule, close-path reachability x who-writes, address-escape/keeper analysis on SSA"),
